@@ -31,8 +31,10 @@ def triple_index(size, phase=0, nreg=3):
 
     With t = position + phase*size:  i0 = t % 5, i1 = (t // 5) % 5,
     i2 = (i0 + i1 + t // 25) % 5  (a Latin square of (i0, i1) shifted every 25 entries), so that
-    * any 25 consecutive t contain all 25 index pairs of every pair of registers, and
-    * any 125 consecutive t contain all 125 index triples.
+    * every window t in [25 m, 25 m + 25) contains all 25 index pairs of every pair of
+      registers, and
+    * every window t in [25 m, 25 m + 125) contains all 125 index triples
+    (the check always starts at t = 0 and covers at least [0, 25), thorough [0, 125)).
     A fourth register (read-only operand) uses i3 = (2*i0 + i1 + 3*(t // 25)) % 5, also a Latin
     square against i0 and against i1.
     """
